@@ -40,6 +40,11 @@ func checkErrsReturned(c *Ctx, p *Prog, fn *Fn, rule, name string, match func(*t
 		case b&eUnk != 0:
 			// discarded or overwritten error
 			ok, why, where = false, "the error of "+name+" is discarded or overwritten before being tested "+evBitsString(b), ex.Pos
+		case b&eFail != 0 && b != eFail && hasErr && (opts == nil || opts.Accumulates == nil):
+			// the failing path merged with others and went on: it must not end in `return ... nil`
+			if ex.Ret != nil && len(ex.Ret.Results) > 0 && isNil(info, ex.Ret.Results[len(ex.Ret.Results)-1]) {
+				ok, why, where = false, "a failed "+name+" does not leave the function: the path continues and can end in `return ... nil` (error swallowed)", ex.Pos
+			}
 		case b == eFail && hasErr:
 			if ex.Ret == nil || len(ex.Ret.Results) == 0 {
 				// named result: accept if the function has named results (deferred handling) — treat bare return as returning the named error
